@@ -60,6 +60,20 @@ def c07_runs(tier):
 
 
 PROPS = {
+    "C03": {
+        "engine": "exhaustive enumeration + rapidcheck",
+        "technique": "reference-model comparison: independent backtracking matcher for the pattern language against matchCommand/SCPI_Match and SCPI_IsCmd/SCPI_CommandNumbers on a live context",
+        "level": "all 984 patterns of 1..3 distinct keywords (mandatory/optional, plain/numeric, with/without ?) against all headers of 1..3 "
+                 "(quick) / 1..4 (thorough) mnemonics over 18 forms x leading colon x ?, plus random patterns of up to 4 keywords over a "
+                 "12-name pool and the 61 shipped patterns against spellings and near misses (random case) through the live parser",
+        "level_note": "headers are lexically valid mnemonics with at most 9 suffix digits; ambiguous (pattern, header) pairs (more than one "
+                      "reference matching) are skipped and counted; acceptance and numbers[] (sentinel pre-filled, canary after the end) are compared",
+        "design_ref": "DESIGN.md section 4, C03",
+        "runs": simple("c03"),
+        "rule": "case = (pattern, header); enumerated pairs distinct by construction, random by hash; non-trivial = the pattern has >= 1 optional "
+                "or numeric keyword and the header is accepted (enumeration) / accepted or a one-step near miss of an accepted spelling (random)",
+        "assumptions": COMMON_ASSUME + ["patterns unambiguous; headers non-empty and lexically valid"],
+    },
     "C19": {
         "engine": "exhaustive enumeration + rapidcheck",
         "technique": "reference-model comparison: independent prefix reader of the numeric/channel list syntax over all short expression bodies, generator-structure oracle for rapidcheck grammar-generated and mutated lists",
